@@ -42,6 +42,9 @@ fn main() {
         println!("{:?}", fancy_regex::verif::stats());
         return;
     }
+    if args.len() >= 2 && args[1] == "c18-stress" {
+        std::process::exit(props::c18::stress_worker(&args[2..]));
+    }
     if args.len() >= 6 && args[1] == "c06-worker" {
         std::process::exit(props::c06::worker(&args[2..]));
     }
